@@ -416,6 +416,10 @@ def moved2d_stream(ctx, n):
 
 
 def correspondence(ctx):
+    from props import c16 as _c16
+    _c16.complex_segment_stream(ctx, ctx.budget(40, 400), prefix="C18")
+    import colllib as _cl
+    _cl.run(ctx, ctx.budget(60, 600), prefix="C18", only={"segment3.intersect-segment"}, patterns=["k", "k1", "1k"])
     moved2d_stream(ctx, ctx.budget(20, 200))
     collection_stream(ctx, ctx.budget(30, 300))
     segseg_stream(ctx, ctx.budget(250, 0))
